@@ -263,6 +263,8 @@ pub trait FutFl: Fl {
     fn poll(rx: &mut Self::Rx) -> Option<Option<Self::P>>;
     fn u_poll(ux: &mut Self::Ux) -> Option<Option<u8>>;
     fn poll_complete(tx: &mut Self::Tx) -> bool;
+    /// `add_stream_with` of the single-consumer futures receiver
+    fn u_add_stream(ux: &Self::Ux) -> Self::Ux;
 }
 
 pub struct BcastFut<P, const A: usize, const B: usize>(PhantomData<P>);
@@ -361,6 +363,9 @@ impl<P: Pay, const A: usize, const B: usize> FutFl for BcastFut<P, A, B> {
     fn poll_complete(tx: &mut Self::Tx) -> bool {
         matches!(tx.poll_complete(), Ok(Async::Ready(())))
     }
+    fn u_add_stream(ux: &Self::Ux) -> Self::Ux {
+        ux.add_stream_with(view_hook::<P> as ViewFn<P>)
+    }
 }
 
 pub struct MpmcFut<P, const A: usize, const B: usize>(PhantomData<P>);
@@ -458,6 +463,9 @@ impl<P: Pay, const A: usize, const B: usize> FutFl for MpmcFut<P, A, B> {
     }
     fn poll_complete(tx: &mut Self::Tx) -> bool {
         matches!(tx.poll_complete(), Ok(Async::Ready(())))
+    }
+    fn u_add_stream(ux: &Self::Ux) -> Self::Ux {
+        ux.add_stream_with(view_hook::<P> as ViewFn<P>)
     }
 }
 
